@@ -573,8 +573,40 @@ CHECKS = {
     "C12": gt_check(LEGS["C12"], "c12", 300, 6000, "up to three iterators over one scanner, interleaved"),
 }
 def replay(K, prop, path):
-    p = subprocess.run([K.HARNESS, "replay1", path], text=True, stdout=subprocess.PIPE)
-    print(p.stdout, end="")
-    if p.returncode == 1:
-        print(f"VIOLATION property={prop} replay={path}")
-    return p.returncode
+    """bin/check <id> --replay <file>: re-runs the failing case of a violation report against the
+    code as it is now."""
+    with open(path) as f:
+        v = json.load(f)
+    kind = v.get("kind")
+    if kind == "replay":
+        p = subprocess.run([K.HARNESS, "replay1", path], text=True, stdout=subprocess.PIPE)
+        print(p.stdout, end="")
+        if p.returncode == 1:
+            print(f"VIOLATION property={prop} replay={path}")
+        return p.returncode
+    if kind == "trace":
+        rec = os.path.join(K.WORK, f"{prop}-{os.getpid()}", "retrace")
+        p = subprocess.run([K.HARNESS, "retrace", path, rec], text=True, stdout=subprocess.PIPE, stderr=subprocess.PIPE)
+        if p.returncode != 0:
+            K.log(p.stderr[-2000:]); raise K.ToolError("retrace failed")
+        stats, viols, _ = K.validate_recorded(prop, "retrace-v", rec, shards=1)
+        if viols:
+            with open(viols[0]) as f:
+                nv = json.load(f)
+            print("REPRODUCED: the re-driven execution is rejected again at", json.dumps(nv["rejected_event"], ensure_ascii=False))
+            print(f"VIOLATION property={prop} replay={path}")
+            return 1
+        print("NOT REPRODUCED: the re-driven execution is a behaviour of the specification")
+        return 0
+    # other kinds (product exploration, DOT, serde, classes, threads): re-run the quick check and look for the same case
+    fn = CHECKS[prop]
+    rc = fn(K, prop, "quick", int(os.environ.get("VERIF_SEED", "1")), time.time())
+    sig = v.get("signature")
+    again = False
+    for f in os.listdir(K.REPLAY_DIR):
+        if f.startswith(prop + "-"):
+            with open(os.path.join(K.REPLAY_DIR, f)) as g:
+                if json.load(g).get("signature") == sig:
+                    again = True
+    print("REPRODUCED: the quick check reports the same case again" if again else "NOT REPRODUCED by the quick check")
+    return 1 if again else 0
